@@ -26,7 +26,7 @@ Definition dec_op (v : tval) : op :=
   match vn (vnth 0 v) with
   | 0 => OCreate (vb (vnth 1 v)) (vb (vnth 2 v)) (vn (vnth 3 v))
   | 1 => ODelete (if vbool (vnth 1 v) then Mine (vnat (vnth 2 v)) else Abs (vn (vnth 2 v)))
-  | 2 => OUpdate (vnat (vnth 1 v)) (dec_status (vnth 2 v)) (vn (vnth 3 v)) (vn (vnth 4 v))
+  | 2 => OUpdate (vnat (vnth 1 v)) (dec_status (vnth 2 v)) (vz (vnth 3 v)) (vn (vnth 4 v))
   | 3 => OLookup (vb (vnth 1 v)) (vn (vnth 2 v))
   | 5 => OCleanup (vn (vnth 1 v))
   | _ => OResetCounter
@@ -81,7 +81,7 @@ Definition rec_matches (m : option mrec) (o : option tval) : bool :=
   | None, None => true
   | Some r, Some v =>
       name_eqb (r_name r) (vb (vnth 1 v)) && Z.eqb (r_client r) (vz (vnth 2 v)) && N.eqb (r_target r) (vn (vnth 3 v))
-      && N.eqb (enc_status (r_status r)) (vn (vnth 4 v)) && N.eqb (r_exp r) (vn (vnth 5 v))
+      && N.eqb (enc_status (r_status r)) (vn (vnth 4 v)) && Z.eqb (r_exp r) (vz (vnth 5 v))
   | _, _ => false
   end.
 
